@@ -386,6 +386,11 @@ func (c *Ctx) finish(p *Prop, kf *knownFile, evPath string, seed int, start time
 		os.WriteFile(rp, b, 0o644)
 		fmt.Printf("VIOLATION property=%s replay=%s\n  rule=%s  %s  %s\n  %s\n", p.ID, rp, v.Rule, v.Pos, v.Construct, v.Detail)
 	}
+	if os.Getenv("VERIF_VERBOSE") != "" {
+		for _, o := range obs {
+			fmt.Printf("  [%v] %s | %s | %s | %s\n", o.OK, o.Rule, o.Construct, o.Pos, o.Detail)
+		}
+	}
 	rules := map[string]interface{}{}
 	perRule := map[string]int{}
 	for _, o := range obs {
@@ -413,7 +418,7 @@ func (c *Ctx) finish(p *Prop, kf *knownFile, evPath string, seed int, start time
 	}
 	n := 0
 	for _, o := range obs {
-		if o.OK && n < 40 {
+		if o.OK && n < 300 {
 			samples = append(samples, o)
 			n++
 		}
